@@ -30,8 +30,8 @@ func run(r *vrt.Run) {
 	r.Require("rec_dup-resigned", 50)
 	r.Require("hs_ok", int64(nWire))
 	r.Require("pos_msg", int64(nWire))
-	for _, k := range []string{"neg_tampered-msg", "neg_replay-old-session", "neg_wrong-recipient", "neg_wrong-challenge", "neg_tampered-handshake", "neg_replay-handshake", "neg_impostor-handshake", "neg_out-of-sync"} {
-		r.Require(k, int64(nWire/40))
+	for _, k := range []string{"neg_tampered-msg", "neg_replay-old-session", "neg_wrong-recipient", "neg_wrong-challenge", "neg_tampered-handshake", "neg_replay-handshake", "neg_impostor-handshake", "neg_out-of-sync", "neg_id-mismatch-handshake", "pos_crafted-handshake"} {
+		r.Require(k, int64(nWire/60))
 	}
 	r.Assume("reference: lenient RLP splitter + refrlp canonical encoder + refmpt.Keccak; crypto.Sign/VerifySignature/DecompressPubkey (secp256k1) are trusted")
 	r.Assume("the harness model of which codecs share session keys (a handshake packet replaces the initiator's keys when it is encoded)")
